@@ -47,6 +47,7 @@ type machine struct {
 	tr          *gen.Tree
 	n           *gen.Node
 	delivered   map[*gen.TNode]bool
+	hdelivered  map[*gen.TNode]bool // header known (imported ahead of its block)
 	tallest     uint64
 	actions     []string
 	labels      map[string]bool
@@ -231,7 +232,7 @@ func TestCanonicalIndex(t *testing.T) {
 		if err != nil {
 			t.Fatal(err)
 		}
-		m := &machine{tr: tr, n: n, delivered: map[*gen.TNode]bool{tr.Root: true}, labels: map[string]bool{}}
+		m := &machine{tr: tr, n: n, delivered: map[*gen.TNode]bool{tr.Root: true}, hdelivered: map[*gen.TNode]bool{}, labels: map[string]bool{}}
 		defer func() { m.n.Chain.Stop() }()
 		var dup bool
 		m.allTxs, dup = collectTxs(tr)
@@ -284,22 +285,70 @@ func TestCanonicalIndex(t *testing.T) {
 					}
 				}
 			},
+			"headersAhead": func(t *rapid.T) {
+				// headers imported ahead of blocks, as a syncing node does: only ever extending the
+				// current header head (a header branch competing with the block head is the
+				// header-only machine's domain)
+				hh := m.tr.ByHash[m.n.Chain.CurrentHeader().Hash()]
+				var path []*gen.TNode
+				for x := hh; len(path) < 4; {
+					var next *gen.TNode
+					for _, c := range x.Children {
+						if !m.delivered[c] && !m.hdelivered[c] {
+							next = c
+							break
+						}
+					}
+					if next == nil {
+						break
+					}
+					path = append(path, next)
+					x = next
+				}
+				if len(path) == 0 {
+					t.Skip("no undelivered child of the header head")
+				}
+				k := rapid.IntRange(1, len(path)).Draw(t, "nheaders")
+				hs := make([]*types.Header, k)
+				for i := 0; i < k; i++ {
+					hs[i] = path[i].Block.Header()
+				}
+				if i, err := m.n.Chain.InsertHeaderChain(hs, 1); err != nil {
+					t.Fatalf("InsertHeaderChain rejected valid header #%d: %v", path[i].Index, err)
+				}
+				for i := 0; i < k; i++ {
+					m.hdelivered[path[i]] = true
+				}
+				m.actions = append(m.actions, fmt.Sprintf("headersAhead #%d+%d", path[0].Index, k))
+				m.lbl("headers-ahead-of-blocks")
+			},
 			"sethead": func(t *rapid.T) {
 				h := m.head(t)
-				if h.Height == 0 {
+				hh := m.tr.ByHash[m.n.Chain.CurrentHeader().Hash()]
+				if hh == nil {
+					t.Fatalf("header head not in tree")
+				}
+				top := hh // the header head is the block head or (after headersAhead) a descendant of it
+				if top.Height == 0 {
 					t.Skip("at genesis")
 				}
-				target := uint64(rapid.IntRange(0, int(h.Height)).Draw(t, "target"))
+				target := uint64(rapid.IntRange(0, int(top.Height)).Draw(t, "target"))
 				if err := m.n.Chain.SetHead(target); err != nil {
 					t.Fatalf("SetHead(%d): %v", target, err)
 				}
 				m.actions = append(m.actions, fmt.Sprintf("sethead %d", target))
-				want := gen.AncestorAt(h, target)
+				want := h
+				if h.Height > target {
+					want = gen.AncestorAt(h, target)
+				}
 				if got := m.head(t); got != want {
 					t.Fatalf("after SetHead(%d) the head is #%d (height %d), want #%d", target, got.Index, got.Height, want.Index)
 				}
-				// blocks above the target on the rewound chain were removed: they may be delivered again
-				for x := h; x != nil && x.Height > target; x = x.Parent {
+				if got := m.tr.ByHash[m.n.Chain.CurrentHeader().Hash()]; got != gen.AncestorAt(top, target) {
+					t.Fatalf("after SetHead(%d) the header head is #%d, want #%d", target, idxOfNode(got), gen.AncestorAt(top, target).Index)
+				}
+				// headers and blocks above the target on the rewound chain were removed: they may be delivered again
+				for x := top; x != nil && x.Height > target; x = x.Parent {
 					m.undeliver(x)
 				}
 				m.lbl("sethead")
@@ -339,11 +388,19 @@ func TestCanonicalIndex(t *testing.T) {
 // deliverable again (SetHead removed their bodies or they lost their parent).
 func (m *machine) undeliver(x *gen.TNode) {
 	delete(m.delivered, x)
+	delete(m.hdelivered, x)
 	for _, c := range x.Children {
-		if m.delivered[c] {
+		if m.delivered[c] || m.hdelivered[c] {
 			m.undeliver(c)
 		}
 	}
+}
+
+func idxOfNode(n *gen.TNode) int {
+	if n == nil {
+		return -1
+	}
+	return n.Index
 }
 
 func last(a []string) string {
